@@ -651,15 +651,20 @@ impl PersistBackend for FilePersist {
             len: batch.len(),
         };
 
-        // Step 2: Update metadata and save atomically
-        state.meta.add_batch(batch_ref);
-        state.buffer.clear();
+        // Step 2: Update metadata and save atomically. The in-memory state (batch list, buffer)
+        // only changes once the metadata is on disk: after a failed save the buffer must still
+        // hold the updates, otherwise a later flush would remove their WAL entries without
+        // their being in any batch.
+        let mut new_meta = state.meta.clone();
+        new_meta.add_batch(batch_ref);
 
-        if let Err(e) = self.save_shard_meta(&state.meta) {
+        if let Err(e) = self.save_shard_meta(&new_meta) {
             // Metadata save failed - clean up the orphaned batch file
             let _ = fs::remove_file(&path);
             return Err(e);
         }
+        state.meta = new_meta;
+        state.buffer.clear();
 
         // Step 3: Remove WAL entries LAST (safe - metadata already points to batch)
         {
